@@ -124,7 +124,13 @@ func TestC18Cli(t *testing.T) {
 		Property: "C18", Name: "cli", Quick: 1280, Thorough: 12000,
 		Rule: fmt.Sprintf("%d command templates (every runnable command that works offline; download/upload, the interactive console and version are excluded) x generated data sets (12-16 tips so that map-order effects show: trees, bootstrap trees, tip/map/state/group files, nucleotide and protein-with-X alignments, Nexus and PhyloXML files) x seed; each command is run 3 times in new processes with the same --seed: exit status, stdout and every written file must be byte-identical (dates in log files masked); commands with -t are run with 1, 4 and 16 threads: supports byte-identical, per-tree records equal as multisets of lines; non-trivial = exit status 0, non-empty output, command consumes generated data", len(names)),
 		Gen: func(t *rapid.T, thorough bool) CliCase {
-			return CliCase{Template: rapid.SampledFrom(names).Draw(t, "template"), Data: clit.GenDataset(t), Seed: rapid.Int64Range(0, 1<<31).Draw(t, "seed")}
+			// rapid favours the ends of a list and small integers: the drawn number is mixed so that every
+			// template gets its share of the cases
+			z := rapid.Uint64().Draw(t, "template") + 0x9E3779B97F4A7C15
+			z = (z ^ (z >> 30)) * 0xBF58476D1CE4E5B9
+			z = (z ^ (z >> 27)) * 0x94D049BB133111EB
+			z ^= z >> 31
+			return CliCase{Template: names[z%uint64(len(names))], Data: clit.GenDataset(t), Seed: rapid.Int64Range(0, 1<<31).Draw(t, "seed")}
 		},
 		Check: checkCli,
 		Classify: func(c CliCase) (bool, []string) {
